@@ -172,6 +172,14 @@ impl Value {
     { match self { Value::Array(a) => Some(a), _ => None } }
     #[verifier::external_body]
     pub fn to_string(&self) -> (r: String) { unimplemented!() }
+    // deviation surface: the other serde_json::Value observers, with their real meaning
+    pub fn is_object(&self) -> (r: bool) ensures r == (*self is Object) { match self { Value::Object(_) => true, _ => false } }
+    pub fn is_array(&self) -> (r: bool) ensures r == (*self is Array) { match self { Value::Array(_) => true, _ => false } }
+    pub fn is_string(&self) -> (r: bool) ensures r == (*self is String) { match self { Value::String(_) => true, _ => false } }
+    pub fn is_null(&self) -> (r: bool) ensures r == (*self is Null) { match self { Value::Null => true, _ => false } }
+    pub fn is_boolean(&self) -> (r: bool) ensures r == (*self is Bool) { match self { Value::Bool(_) => true, _ => false } }
+    pub fn is_number(&self) -> (r: bool) ensures r == (*self is Number) { match self { Value::Number(_) => true, _ => false } }
+    pub fn as_bool(&self) -> (r: Option<bool>) ensures match self { Value::Bool(b) => r == Some(*b), _ => r is None } { match self { Value::Bool(b) => Some(*b), _ => None } }
 }
 impl Clone for Value {
     #[verifier::external_body]
